@@ -142,6 +142,15 @@ STD_CONSTS = {
 }
 
 
+def _tracing_level(i):
+    info = EnumInfo("LevelInner", ["Trace", "Debug", "Info", "Warn", "Error"])
+    return lambda e: VStruct([VEnum(info, bv(i, 8), {i: ()})], "tracing::Level")
+
+
+for _i, _n in enumerate(["TRACE", "DEBUG", "INFO", "WARN", "ERROR"]):
+    STD_CONSTS["tracing::Level::" + _n] = _tracing_level(_i)
+
+
 # ------------------------------------------------------------------------------------- clock
 
 
@@ -344,13 +353,22 @@ def _fclamp(eng, st, args, dty, callee, m):
 def _total_cmp(eng, st, args, dty, callee, m):
     a = deref(eng, st, args[0])
     b = deref(eng, st, args[1])
-    ka = _total_key(a)
-    kb = _total_key(b)
+    ka = _total_key(eng, a)
+    kb = _total_key(eng, b)
     return ordering(ka < kb, ka == kb)
 
 
-def _total_key(x):
-    bits = z3.fpToIEEEBV(x)
+_BITS_CACHE = {}
+
+
+def _total_key(eng, x):
+    # portable bit pattern: fresh bit-vector b with to_fp(b) = x (SMT-LIB has no fp->bits function; every NaN pattern is allowed)
+    key = (id(eng), x.get_id())
+    bits = _BITS_CACHE.get(key)
+    if bits is None:
+        bits = eng.fresh_bv("f64bits", 64)
+        eng.assume(z3.fpBVToFP(bits, F64) == x)
+        _BITS_CACHE[key] = bits
     # std: left ^= (((left >> 63) as u64) >> 1) as i64  -> signed comparison
     mask = z3.LShR(bits >> 63, bv(1, 64))
     return bits ^ mask
@@ -776,7 +794,12 @@ def _to_string(eng, st, args, dty, callee, m):
     return VStr(eng.fresh_bv("tostr", 64))
 
 
-@summary(r"^tracing::.*$|^tracing_core::.*$|^<tracing::.*$|^log::.*$|^core::hint::.*$|^std::hint::.*$", "tracing/log machinery: opaque, effect-free")
+@summary(r"^(core::hint::|std::hint::)?must_use::<.*>$|^(core|std)::hint::black_box::<.*>$", "hint::must_use / black_box: identity")
+def _must_use(eng, st, args, dty, callee, m):
+    return args[0]
+
+
+@summary(r"^tracing::.*$|^tracing_core::.*$|^<tracing::.*$|^<tracing_core::.*$|^log::.*$|^<log::.*$|^core::hint::.*$|^std::hint::.*$", "tracing/log machinery: opaque, effect-free, every level disabled")
 def _tracing(eng, st, args, dty, callee, m):
     if dty is not None and dty.kind == "bool":
         return z3.BoolVal(False)  # `enabled` style predicates: logging disabled
@@ -812,3 +835,68 @@ def _opt_filter(eng, st, args, dty, callee, m):
     s2, r = eng.call_closure(st, f, [ref])
     _adopt(st, s2)
     return VEnum(OPTION, z3.If(z3.And(is_variant(o, 1), r), bv(1, 8), bv(0, 8)), {0: (), 1: o.pay[1]})
+
+
+# ------------------------------------------------------------------------------------- abstract strings
+def _as_str(eng, st, v):
+    v = deref(eng, st, v)
+    if not isinstance(v, VStr):
+        raise SymError(f"expected a string, found {v!r}")
+    return v
+
+
+@summary(r"^std::string::String::(len|is_empty)$|^core::str::<impl str>::(len|is_empty)$|^str::<impl str>::(len|is_empty)$", "String/str len: uninterpreted function of the abstract string (literal lengths are concrete)")
+def _str_len(eng, st, args, dty, callee, m):
+    s = _as_str(eng, st, args[0])
+    ln = eng.str_len(s)
+    if callee.endswith("is_empty"):
+        return simp(ln == 0)
+    return ln
+
+
+@summary(r"^<(std::string::)?String as PartialEq(<.*>)?>::(eq|ne)$|^<str as PartialEq(<.*>)?>::(eq|ne)$|^<&str as PartialEq(<.*>)?>::(eq|ne)$|^core::str::traits::<impl PartialEq for str>::(eq|ne)$",
+         "string equality = identity of the abstract strings")
+def _str_eq(eng, st, args, dty, callee, m):
+    a = _as_str(eng, st, args[0])
+    b = _as_str(eng, st, args[1])
+    e = simp(a.id == b.id)
+    return e if callee.endswith("eq") else simp(z3.Not(e))
+
+
+@summary(r"^std::string::String::(as_str|as_mut_str)$|^<(std::string::)?String as Deref>::deref$|^<(std::string::)?String as AsRef<str>>::as_ref$|^<(std::string::)?String as Borrow<str>>::borrow$", "String -> &str: same abstract string")
+def _str_as_str(eng, st, args, dty, callee, m):
+    return args[0]
+
+
+@summary(r"^std::string::String::new$", "String::new: the empty string")
+def _str_new(eng, st, args, dty, callee, m):
+    return eng.str_lit("")
+
+
+@summary(r"^core::str::<impl str>::(starts_with|ends_with|contains)::<.*>$", "str predicates: uninterpreted predicate of the two abstract strings")
+def _str_pred(eng, st, args, dty, callee, m):
+    a = _as_str(eng, st, args[0])
+    b = deref(eng, st, args[1])
+    bid = b.id if isinstance(b, VStr) else (z3.ZeroExt(64 - b.size(), b) if z3.is_bv(b) and b.size() <= 64 else bv(0, 64))
+    f = z3.Function("str_" + m.group(1), z3.BitVecSort(64), z3.BitVecSort(64), z3.BoolSort())
+    return f(a.id, bid)
+
+
+@summary(r"^std::cmp::Ordering::then_with::<.*>$", "Ordering::then_with (real closure executed for the tie case)")
+def _ord_then_with(eng, st, args, dty, callee, m):
+    o, f = args
+    s2, r = eng.call_closure(st, f, [])
+    _adopt(st, s2)
+    return VEnum(ORDERING, z3.If(o.idx == bv(1, 8), r.idx, o.idx), {0: (), 1: (), 2: ()})
+
+
+@summary(r"^std::cmp::Ordering::(then|reverse|is_lt|is_le|is_gt|is_ge|is_eq|is_ne)$", "Ordering helpers")
+def _ord_helpers(eng, st, args, dty, callee, m):
+    o = deref(eng, st, args[0])
+    k = m.group(1)
+    if k == "then":
+        return VEnum(ORDERING, z3.If(o.idx == bv(1, 8), args[1].idx, o.idx), {0: (), 1: (), 2: ()})
+    if k == "reverse":
+        return VEnum(ORDERING, z3.If(o.idx == bv(0, 8), bv(2, 8), z3.If(o.idx == bv(2, 8), bv(0, 8), bv(1, 8))), {0: (), 1: (), 2: ()})
+    i = o.idx
+    return simp({"is_lt": i == 0, "is_le": i != 2, "is_gt": i == 2, "is_ge": i != 0, "is_eq": i == 1, "is_ne": i != 1}[k])
